@@ -2184,4 +2184,12 @@ example : ∀ d, ((fun (a : Algorithm) (_ _ : Octets) => List.replicate a.output
     (ofWriterAlg .hmacSha256) [1, 2, 3] d).length ≤ 65000 := by
   intro d; simp [ofWriterAlg, Hmac.Alg.outputSize]
 
+/-- **C10.** The property at full strength (as amended in the header: `CfgWF`, 16-bit payload,
+    `KeysOK`, `ZonesTyped`; oracle guards `plainComparable`, room, SERVFAIL): for every request,
+    the executable audit of `Spec.ServerTsig` finds nothing to object to in the response of
+    `handle_message`. Both writer-level obligations are discharged: `scratchIndepI`
+    (Proofs/ServerScratchIndep.lean) and `decodeCongrT` (Proofs/ServerDecodeCongr.lean, inside
+    `C10_full_of`). -/
+theorem C10 : C10_full := C10_full_of ServerContent.scratchIndepI
+
 end QV.C10
